@@ -2,7 +2,11 @@ package props
 
 import (
 	"bytes"
+	"encoding/csv"
 	"encoding/hex"
+	"os/exec"
+	"path/filepath"
+	"regexp"
 	"encoding/json"
 	"fmt"
 	"net/http"
@@ -36,6 +40,7 @@ type c20Plan struct {
 	Adapt014 bool  `json:"adapt_014"` // strip self-confirmations and PubPolyBz (a v0.1.4 log), then GetAdaptedReDKG
 	Proposer int   `json:"proposer"`  // which new node posts the reinit message
 	Recorded bool  `json:"recorded"`  // use the recorded client/test_data/0_1_4_log.csv instead of a generated ceremony
+	CLI      bool  `json:"cli"`       // build the reinit file with the compiled dc4bc_dkg_reinitializer from a CSV dump and check the compiled CLI's hash
 	Prior    bool  `json:"prior"`     // the original machines completed another round before the one that is re-initialised
 }
 
@@ -43,7 +48,7 @@ func c20Gen(rt *rapid.T) c20Plan {
 	nt := rapid.SampledFrom([][2]int{{2, 2}, {3, 2}, {3, 3}, {4, 2}, {4, 3}}).Draw(rt, "nt")
 	return c20Plan{N: nt[0], T: nt[1], Tape: rapid.SliceOfN(rapid.IntRange(0, 1000), 0, 60).Draw(rt, "tape"),
 		Batches: rapid.IntRange(0, 2).Draw(rt, "batches"), Junk: rapid.IntRange(0, 3).Draw(rt, "junk"),
-		Adapt014: rapid.Bool().Draw(rt, "adapt"), Proposer: rapid.IntRange(0, nt[0]-1).Draw(rt, "proposer"), Prior: rapid.IntRange(0, 2).Draw(rt, "prior") == 0}
+		Adapt014: rapid.Bool().Draw(rt, "adapt"), Proposer: rapid.IntRange(0, nt[0]-1).Draw(rt, "proposer"), Prior: rapid.IntRange(0, 2).Draw(rt, "prior") == 0, CLI: rapid.IntRange(0, 3).Draw(rt, "cli") == 0}
 }
 
 type c20Orig struct {
@@ -232,6 +237,29 @@ func c20Reinit(p c20Plan, o c20Orig, cfg world.Config, log []storage.Message) (o
 		}
 	}
 	file, _ := json.MarshalIndent(re, "", "  ")
+	binDir := filepath.Join(os.Getenv("VERIF_BUILD"), "bin")
+	useCLI := p.CLI && !p.Recorded && os.Getenv("VERIF_BUILD") != ""
+	if useCLI {
+		cliFile, cerr := c20ViaCLI(binDir, w.Root, src, newKeys, p.Adapt014)
+		if cerr != nil {
+			obs.Viol = violf("cli-reinitializer-failed", "dc4bc_dkg_reinitializer on a CSV dump of the log: %v", cerr)
+			return
+		}
+		var viaCLI types.ReDKG
+		if err := json.Unmarshal(cliFile, &viaCLI); err != nil {
+			obs.Viol = violf("cli-reinitializer-failed", "its output does not parse: %v", err)
+			return
+		}
+		a, _ := json.Marshal(viaCLI)
+		b, _ := json.Marshal(re)
+		// message ids of the synthetic self-confirmations are fresh uuids on each run
+		if stripIDs(a) != stripIDs(b) {
+			obs.Viol = violf("cli-reinit-file-differs", "the file written by dc4bc_dkg_reinitializer differs from the in-process reinit message")
+			return
+		}
+		file = cliFile
+		re = &viaCLI
+	}
 	obs.FileHash, err = types.CalcStartReInitDKGMessageHash(file)
 	if err != nil {
 		obs.Err = err
@@ -269,6 +297,19 @@ func c20Reinit(p c20Plan, o c20Orig, cfg world.Config, log []storage.Message) (o
 	w.PollAll()
 	for i := range w.Nodes {
 		obs.States = append(obs.States, w.StateOf(i, round))
+	}
+	if useCLI {
+		fp := filepath.Join(w.Root, "reinit-for-hash.json")
+		_ = os.WriteFile(fp, file, 0o644)
+		out, cerr := exec.Command(filepath.Join(binDir, "dc4bc_cli"), "get_reinit_dkg_file_hash", fp).CombinedOutput()
+		if cerr != nil {
+			obs.Viol = violf("cli-hash-failed", "dc4bc_cli get_reinit_dkg_file_hash: %v: %s", cerr, clip(string(out), 200))
+			return
+		}
+		if got := strings.TrimSpace(string(out)); got != hex.EncodeToString(obs.FileHash) {
+			obs.Viol = violf("cli-hash-differs", "dc4bc_cli prints %q, the nodes show %x", got, obs.FileHash)
+			return
+		}
 	}
 	for i, h := range obs.Hashes {
 		if !bytes.Equal(h, obs.FileHash) {
@@ -417,6 +458,9 @@ func c20Run(t *testing.T, st *vstat.Stats, p c20Plan) *viol {
 		return obs.Viol
 	}
 	st.Class(fmt.Sprintf("adapt014=%v", p.Adapt014 || p.Recorded))
+	if p.CLI && !p.Recorded && os.Getenv("VERIF_BUILD") != "" {
+		st.Class("via-compiled-CLIs")
+	}
 	if p.Recorded {
 		st.Class("recorded-0.1.4-log")
 	}
@@ -538,4 +582,38 @@ func TestC20(t *testing.T) {
 			return c20Edit{Field: rapid.SampledFrom(c20Fields).Draw(rt, "field"), Idx: rapid.IntRange(0, 50).Draw(rt, "idx"), Byte: rapid.IntRange(0, 300).Draw(rt, "byte")}
 		},
 		func(e c20Edit) *viol { return c20HashRun(st, e) })
+}
+
+var idRe = regexp.MustCompile(`"id":"[^"]*"`)
+
+func stripIDs(b []byte) string { return idRe.ReplaceAllString(string(b), `"id":""`) }
+
+// c20ViaCLI writes the log as the CSV dump the operators get from the board, the new keys as keys.json, and runs the
+// compiled reinitializer.
+func c20ViaCLI(binDir, root string, log []storage.Message, newKeys map[string][]byte, adapt bool) ([]byte, error) {
+	csvPath := filepath.Join(root, "dump.csv")
+	f, err := os.Create(csvPath)
+	if err != nil {
+		return nil, err
+	}
+	wr := csv.NewWriter(f)
+	wr.Comma = ';'
+	_ = wr.Write([]string{"timestamp", "partition", "offset", "key", "value"})
+	for _, m := range log {
+		bz, _ := json.Marshal(m)
+		_ = wr.Write([]string{"1637743545160", "0", fmt.Sprint(m.Offset), m.ID, string(bz)})
+	}
+	wr.Flush()
+	f.Close()
+	keysPath := filepath.Join(root, "keys.json")
+	kb, _ := json.Marshal(newKeys)
+	if err := os.WriteFile(keysPath, kb, 0o644); err != nil {
+		return nil, err
+	}
+	outPath := filepath.Join(root, "reinit.json")
+	args := []string{"reinit", "-i", csvPath, "-o", outPath, "-k", keysPath, "--skip-header", fmt.Sprintf("--adapt_0_1_4=%v", adapt)}
+	if out, err := exec.Command(filepath.Join(binDir, "dkg_reinitializer"), args...).CombinedOutput(); err != nil {
+		return nil, fmt.Errorf("%v: %s", err, clip(string(out), 300))
+	}
+	return os.ReadFile(outPath)
 }
